@@ -187,19 +187,25 @@ def rule_exact(rep):
     # more generally: positions and frame counts live in usize / isize / f64.  Every conversion to f32 outside the sample type's own coercions
     # is enumerated; the reviewed ones compute the (f32) filter cutoff or the filter length, a new one narrows some count or position to 24 bits
     # (`self.chunk_size as f32 as f64` is exact only below 2^24 frames)
-    reviewed_f32 = {("asynchro_sinc.rs", "make_interpolator"): 2, ("synchro.rs", "new"): 2, ("sample.rs", "coerce_from"): 2}
+    # keyed by function (the module a private function lives in may change), methods by their type
+    reviewed_f32 = {"make_interpolator": 2, "FftResampler::new": 2, "f32::coerce_from": 2}
     seen_f32 = {}
+    import re as _re
     for name, fn in facts.all_fns():
         if not fn.get("body"):
             continue
+        q_ = _re.sub(r"<[^<>]*>", "", _re.sub(r"<[^<>]*>", "", name)).replace("::::", "::")
+        segs_ = [z for z in q_.split("::") if z]
+        is_method = any(fn in im["fns"] for _, im in facts.impls)
+        key_ = "::".join(segs_[-2:]) if is_method else segs_[-1]
         for x in walk(fn["body"]):
             if x.get("k") == "cast" and x["ty"].replace(" ", "") == "f32" and not (x["e"].get("k") == "lit"):
-                seen_f32.setdefault((fn.get("_file"), fn["name"]), []).append(x)
+                seen_f32.setdefault((fn.get("_file"), key_), []).append(x)
     for (f_, n_), xs in sorted(seen_f32.items(), key=str):
-        ok_ = len(xs) <= reviewed_f32.get((f_, n_), 0)
+        ok_ = len(xs) <= reviewed_f32.get(n_, 0)
         rep.ob(R, "f32-casts/%s::%s" % (f_, n_), ok_,
                "%d conversion(s) to f32 in %s::%s (%s); reviewed: %d. Outside the cutoff / filter-length computations and the sample coercions, a cast to f32 rounds a count, "
-               "ratio or position to 24 bits" % (len(xs), f_, n_, [show(y)[:40] for y in xs][:3], reviewed_f32.get((f_, n_), 0)), loc(fn if False else xs[0]) if False else "src/%s" % f_)
+               "ratio or position to 24 bits" % (len(xs), f_, n_, [show(y)[:40] for y in xs][:3], reviewed_f32.get(n_, 0)), loc(fn if False else xs[0]) if False else "src/%s" % f_)
     # the integer division helpers are what they claim to be
     for hname, want in (("div_floor", "ite((denominator == i:0),i:0,(numerator / denominator))"),
                         ("div_ceil", "ite((denominator == i:0),i:0,((numerator / denominator) + usize::from(((numerator % denominator) != i:0))))")):
